@@ -158,7 +158,11 @@ def generate(r, tier, prop):
                 cands = sorted(m for b in bases for m in classes[b]["own"] if classes[b]["own"][m]["kind"] == "method" and m not in info["own"])
                 if cands:
                     m = r.choice(cands)
-                    spec["methods"].append({"name": m, "kind": "shared", "impl": r.randint(0, 1)})
+                    sh_ = {"name": m, "kind": "shared", "impl": r.randint(0, 1)}
+                    if r.random() < 0.4:
+                        sh_["impl"] = 2 + r.randint(0, 1)
+                        sh_["contracted"] = True  # the shared implementation carries contracts of its own
+                    spec["methods"].append(sh_)
                     info["own"][m] = {"pre": [], "kind": "shared", "snaps": [], "post": []}
             if bases and r.random() < p_alias:
                 # re-export of a base's function object in the subclass namespace
@@ -181,10 +185,25 @@ def generate(r, tier, prop):
                         al = {"name": m, "kind": "alias", "of": "%s.%s" % (b, m)}
                         if classes[b]["own"][m]["kind"] == "static" or r.random() < 0.5:
                             al["via"] = "attr"  # written as ``m = Base.m`` in the class body
+                        if classes[b]["own"][m]["kind"] == "method" and r.random() < 0.3:
+                            al["via"] = "attr"
+                            al["wrapped"] = True  # ``m = some_decorator(Base.m)`` with a functools.wraps decorator
                         spec["methods"].append(al)
                         if r.random() < 0.4:
                             # ... in a class which carries the very name of the base it re-exports from (class K(K): ...)
                             spec["pyname"] = b
+            if r.random() < 0.12:
+                # a method borrowed from a class that is NOT among the ancestors (``g = Other.g``)
+                anc_ = set(x for b in bases for x in mro(b))
+                far2 = [(x, m) for x in sorted(classes) if x not in anc_ and x != name and not any(classes[y].get("has_inv") for y in mro(x)) for m in sorted(classes[x]["own"])
+                        if classes[x]["own"][m]["kind"] == "method" and not classes[x]["own"][m]["snaps"] and m not in info["own"] and not any(y["name"] == m for y in spec["methods"])]
+                if far2:
+                    x, m = r.choice(far2)
+                    al = {"name": m, "kind": "alias", "of": "%s.%s" % (x, m)}
+                    if r.random() < 0.5:
+                        al["via"] = "attr"
+                    spec["methods"].append(al)
+                    info["own"][m] = {"pre": [], "kind": "alias", "snaps": [], "post": []}
             if bases and r.random() < 0.15:
                 # re-export of a base's method under the name of ANOTHER member that the bases also provide
                 b = bases[0]
@@ -195,7 +214,9 @@ def generate(r, tier, prop):
                         spec["methods"].append({"name": dst, "kind": "alias", "of": "%s.%s" % (b, src)})
             if spec.get("builtin"):
                 builtin_roots.add(name)
-            for k in range(r.choice(inv_counts)):
+            n_inv_ = r.choice(inv_counts)
+            info["has_inv"] = n_inv_ > 0
+            for k in range(n_inv_):
                 inv = {"check_on": r.choice(inv_mix)}
                 inv.update(_cspec(r, forms))
                 if spec.get("builtin") and r.random() < 0.6:
@@ -234,6 +255,12 @@ def generate(r, tier, prop):
                 kind = "snap_no_post"
             spec = {"name": "g%d" % i, "pre": [], "post": [], "snaps": [{}], "force_snaps": True}
             steps.append({"op": "bad", "kind": "snap_no_post", "spec": spec, "expect": "ValueError"})
+            continue
+        if classes and r.random() < 0.25:
+            # the invariant decorator applied to a class that already exists - possibly after subclasses of it were created
+            c_ = r.choice(sorted(classes))
+            steps.append({"op": "late_inv", "unit": c_, "check_on": r.choice(inv_mix)})
+            classes[c_]["has_inv"] = True
             continue
         # decorating a member of an already created class (K.m = require(...)(K.m)) or appending through the documented helper
         if classes and r.random() < 0.4:
@@ -433,6 +460,12 @@ def _shadowed_by_rewrap(m, cname, member):
     return None
 
 
+def _ancestors(m, name):
+    if name not in m.world.classes:
+        return []
+    return [n for n in (_world_name(m, k) for k in m.world.classes[name].__mro__[1:]) if n is not None]
+
+
 def _world_name(m, cls):
     for nm, c in m.world.classes.items():
         if c is cls:
@@ -453,7 +486,22 @@ def _foreign_effect(m, old, vv):
     w = m.world
     if old not in w.classes:
         return []
-    mro = w.classes[old].__mro__
+    mro = list(w.classes[old].__mro__)
+    # a member borrowed from a class outside the hierarchy (``g = Other.g``) legitimately brings that class's contracts along
+    todo = list(mro)
+    while todo:
+        k = todo.pop()
+        nm = _world_name(m, k)
+        if nm is None:
+            continue
+        for ms in w.cspec[nm].get("methods", ()):
+            if ms.get("kind") == "alias":
+                src = w.classes.get(ms["of"].split(".")[0])
+                if src is not None:
+                    for x in src.__mro__:
+                        if x not in mro:
+                            mro.append(x)
+                            todo.append(x)
     bad = []
     for k, v in sorted(vv.items()):
         head, sid = k.split(":", 1)
@@ -494,12 +542,24 @@ def execute(scn, want):
         defined = []  # names in definition order
         ok_classes = 0
         touched = set()  # members changed after their class was created (late decoration, helper appends)
+        borrowed_plain = set()  # classes without the metaclass a member of which a contract class has borrowed (finding D19)
+        inv_stale = set()  # classes an ancestor of which was given an invariant after they had been created
+        D19 = ":member-borrowed-from-a-class-without-the-metaclass"
         for si, step in enumerate(scn.get("steps") or []):
             stats["steps"] += 1
             name, exc, announced = m.define(step)
             op = step["op"]
             if op in ("late", "append"):
                 touched.add(step["unit"])
+            if op == "late_inv":
+                probe("invariant_added_to_existing_class")
+                if exc is None and step["unit"] in m.world.classes:
+                    rc_ = m.world.classes[step["unit"]]
+                    for d_ in defined:
+                        if d_ != step["unit"] and d_ in m.world.classes and rc_ in m.world.classes[d_].__mro__:
+                            # decorating a class after its subclasses were created is not how invariants are declared: which of
+                            # the subclasses' members are wrapped is not defined, so the by-hand comparison leaves them alone
+                            inv_stale.add(d_)
             # ---------------- expectations about the step itself
             if op == "bad":
                 probe("failing_definition_" + step.get("kind", "?"))
@@ -545,11 +605,18 @@ def execute(scn, want):
                             "detail": {"step": si, "announced": [getattr(a, "__name__", str(a)) for a in announced]},
                         }
                     )
+            # ---------------- finding D19: a member borrowed from a class WITHOUT the metaclass by a contract class
+            if op == "class" and exc is None and name is not None and name in m.world.classes:
+                for ms_ in step["spec"].get("methods", ()):
+                    if ms_.get("kind") == "alias":
+                        src_ = m.world.classes.get(ms_["of"].split(".")[0])
+                        if src_ is not None and not isinstance(src_, icontract_meta()) and src_ not in m.world.classes[name].__mro__:
+                            borrowed_plain.add(ms_["of"].split(".")[0])
             # ---------------- observe earlier definitions
             changed = []
             rebase = []
             allowed = set()
-            if op in ("append", "late") and exc is None:
+            if op in ("append", "late", "late_inv") and exc is None:
                 unit = step["unit"]
                 root = unit.split(".")[0]
                 allowed.add(root)
@@ -558,6 +625,21 @@ def execute(scn, want):
                     for d in defined:
                         if d in m.world.classes and rc in m.world.classes[d].__mro__:
                             allowed.add(d)
+                    # classes that borrowed a member from one of these (``g = Other.g``) share the very function object
+                    grew = True
+                    while grew:
+                        grew = False
+                        for d in defined:
+                            if d in allowed or d not in m.world.classes:
+                                continue
+                            for k_ in m.world.classes[d].__mro__:
+                                nm_ = _world_name(m, k_)
+                                if nm_ is None:
+                                    continue
+                                if nm_ in allowed or any(x.get("kind") == "alias" and x["of"].split(".")[0] in allowed for x in m.world.cspec[nm_].get("methods", ())):
+                                    allowed.add(d)
+                                    grew = True
+                                    break
             for old in defined:
                 fp = m.fingerprint(old)
                 if fp != m.stored_fp[old]:
@@ -568,7 +650,8 @@ def execute(scn, want):
                         violations.append(
                             {
                                 "rule": "C17.R2" if op == "bad" else "C17.R1",
-                                "classifier": "%s:%s:lists:%s:%s" % (op, _relation(m, name, old), which if which.startswith("__inv") else which.split(".")[-1], "gained" if gained else "lost"),
+                                "classifier": "%s:%s:lists:%s:%s%s"
+                                % (op, _relation(m, name, old), which if which.startswith("__inv") else which.split(".")[-1], "gained" if gained else "lost", D19 if old in borrowed_plain else ""),
                                 "detail": {"step": si, "defined": name, "observed": old, "list": which, "gained": gained, "lost": lost},
                             }
                         )
@@ -586,7 +669,7 @@ def execute(scn, want):
             if is_last:
                 to_probe = list(defined)
             for old in to_probe:
-                manual = [] if (want == "C18") else None
+                manual = [] if (want == "C18" and old not in inv_stale and not any(x in inv_stale for x in _ancestors(m, old))) else None
                 vv = m.verdict_vector(old, manual)
                 rel = _relation(m, name, old)
                 if want == "C17":
@@ -596,7 +679,7 @@ def execute(scn, want):
                         violations.append(
                             {
                                 "rule": "C17.R1",
-                                "classifier": "foreign-contract-decides-verdict:%s:%s" % (_relation(m, owner, old), "inv" if "/inv" in k else "contract"),
+                                "classifier": "foreign-contract-decides-verdict:%s:%s%s" % (_relation(m, owner, old), "inv" if "/inv" in k else "contract", D19 if old in borrowed_plain else ""),
                                 "detail": {"step": si, "observed": old, "probe": k, "verdict_with_all_true": exp, "verdict_now": now, "contract_of": owner},
                             }
                         )
@@ -616,7 +699,8 @@ def execute(scn, want):
                     violations.append(
                         {
                             "rule": rule,
-                            "classifier": "%s:%s:%s:%s" % (op, rel, "ctor" if what == "new" else "member", "inv" if "/inv" in site else ("pre" if "/pre" in site else ("post" if "/post" in site else "ok"))),
+                            "classifier": "%s:%s:%s:%s%s"
+                            % (op, rel, "ctor" if what == "new" else "member", "inv" if "/inv" in site else ("pre" if "/pre" in site else ("post" if "/post" in site else "ok")), D19 if old in borrowed_plain else ""),
                             "detail": {"step": si, "defined": name, "observed": old, "probe": k, "verdict_when_defined": was, "verdict_now": now, "lists_changed": old in changed},
                         }
                     )
@@ -672,7 +756,9 @@ def execute(scn, want):
                             break
             # ---------------- record the new definition
             if name is not None and exc is None and op in ("class", "func"):
-                manual = [] if want == "C18" else None
+                if op == "class" and any(x in inv_stale for x in _ancestors(m, name)):
+                    inv_stale.add(name)  # its lists were merged from lists that had missed the late invariant of an ancestor
+                manual = [] if (want == "C18" and name not in inv_stale) else None
                 m.stored_fp[name] = m.fingerprint(name)
                 if name in (scn.get("lazy") or ()) and op == "class":
                     m.stored_vv[name] = None
